@@ -32,6 +32,10 @@ namespace nmtools::index
 
         if constexpr (meta::is_signed_v<index_t>) {
             axis = (N<0) ? (dim+N) : N;
+        } else if constexpr (meta::is_clipped_integer_v<index_t>) {
+            // a clipped integer over a signed type can be negative too (is_signed_v does not say so)
+            auto n = (nm_index_t)N;
+            axis = (n<0) ? (nm_index_t)dim+n : n;
         } else {
             // unsigned, no need to check
             axis = N;
